@@ -216,6 +216,8 @@ void drive(const ShapeDesc& sd, RunCtl& ctl, RunState& rs, const std::function<v
       return ss.str();
     };
     const std::string want = real_sum();
+    const int want_ctx = w.root_signals > 0 ? w.root_ctx : -1;
+    bool ctx_only_mismatch = false; int ctx_expected = -1;
     auto try_candidate = [&](int nid, int mode, int occ, std::string* got) {
       Model mm(sd, plan.spec);
       mm.node_arg = plan.node_arg; mm.cand_nid = nid; mm.cand_mode = mode; mm.cand_occ = occ;
@@ -229,7 +231,10 @@ void drive(const ShapeDesc& sd, RunCtl& ctl, RunState& rs, const std::function<v
       if (mm.unspecified) return true;   // the documents leave this situation open (when_any under a receiver stop)
       std::string ms = model_sum(mm);
       if (got) *got = ms;
-      return ms == want;
+      if (ms != want) return false;
+      // same outcome: the completion context must be the documented one too (C11: via / typed_via / on deliver on their scheduler on every path)
+      if (mm.done && mm.result_ctx != want_ctx) { ctx_only_mismatch = true; ctx_expected = mm.result_ctx; return false; }
+      return true;
     };
     bool ok = false; std::string plain;
     if (!w.fault_fired) ok = try_candidate(-1, 0, 0, &plain);
@@ -258,7 +263,9 @@ void drive(const ShapeDesc& sd, RunCtl& ctl, RunState& rs, const std::function<v
       }
     }
     vk::ctx().label(w.fault_fired ? "anonymous-fault-explained-by-model" : "anonymous-fault-not-reached(plain model)");
-    if (!ok) SR_FAIL("C05", "fault_outcome_unexplained", "an injected throw (%s, throw point #%ld) %s; the run ended as [%s]; no single place at which that failure is reported through set_error explains it (without any fault the documented behaviour is [%s]) [%s]",
+    if (!ok && ctx_only_mismatch)
+      SR_FAIL("C11", "fault_completion_context", "an injected throw (%s, throw point #%ld) fired; the result [%s] is the documented one but it was delivered on ctx%d, the documented behaviour delivers it on ctx%d [%s]", w.fault_site, plan.anon_fault, want.c_str(), want_ctx, ctx_expected, sd.text);
+    else if (!ok) SR_FAIL("C05", "fault_outcome_unexplained", "an injected throw (%s, throw point #%ld) %s; the run ended as [%s]; no single place at which that failure is reported through set_error explains it (without any fault the documented behaviour is [%s]) [%s]",
                      w.fault_site, plan.anon_fault, w.fault_fired ? "fired" : "was planned but not reached", want.c_str(), plain.c_str(), sd.text);
   }
   // snapshot of the model for the end-of-run oracles
